@@ -65,6 +65,7 @@ var c06Variants = []string{
 	"second-root", "root-lc", "root-lc", "payload-not-hash", "payload-upper",
 	"kid-unknown", "kid-other-key", "jwk-other-key", "kid-not-asof", "jwk-private", "kid-and-jwk", "no-key-ref", "kid-empty-with-jwk",
 	"sig-empty", "sig-garbage", "sig-flip", "sig-truncated", "sig-high-s", "sig-der",
+	"signed-EdDSA", "signed-EdDSA", "signed-EdDSA", "signed-EdDSA", "signed-EdDSA", "signed-EdDSA", "signed-RS256", "signed-RS256", "signed-RS512", "signed-HS256-oct", "signed-HS256-oct",
 	"alg-none", "alg-HS256", "alg-RS256", "alg-lower", "alg-mismatch", "alg-mismatch-stale",
 	"json-flattened", "json-general1", "json-general2-vv", "json-general2-vj", "json-general2-jv", "json-flattened-unprot",
 	"ser-lf", "ser-cr", "ser-crlf", "ser-sp", "ser-tab", "ser-combo", "ser-lf", "ser-cr", "ser-crlf", "ser-combo",
@@ -299,7 +300,7 @@ func (f *c06Fix) payloadFor(o c06Offer, b c06Base) []byte {
 
 // validNow: a transaction built valid on the model's present set is due to be admitted (root only on an empty DAG).
 func (f *c06Fix) validNow(b c06Base, o c06Offer) bool {
-	if o.Pay == "wrong" {
+	if o.Pay == "wrong" || !c06AllowedAlgs[b.alg] {
 		return false
 	}
 	if len(b.prevs) == 0 {
@@ -313,7 +314,7 @@ func (f *c06Fix) validNow(b c06Base, o c06Offer) bool {
 
 func (f *c06Fix) buildFresh(o c06Offer, idx int) c06Sub {
 	b := f.base(o, idx, 0, false, false)
-	return c06Sub{data: c06Seal(b.hdr, b.alg, b.key, b.phashHex()), payload: f.payloadFor(o, b), label: "fresh:" + b.alg, expect: f.validNow(b, o)}
+	return c06Sub{data: c06Seal(b.hdr, b.alg, b.key, b.phashHex()), payload: f.payloadFor(o, b), label: "fresh:" + b.alg + ":" + map[bool]string{true: "kid", false: "jwk"}[b.kid != ""], expect: f.validNow(b, o)}
 }
 
 // mutateField confines the mutations to one protected header (member value, its name, its presence, its siblings).
@@ -412,13 +413,20 @@ func (f *c06Fix) buildCrafted(o c06Offer, idx int, pool []vdTx) c06Sub {
 	if v == "sig-high-s" || v == "sig-der" || v == "alg-mismatch" || v == "alg-mismatch-stale" || v == "alg-HS256" {
 		o.Key = 0 // P-256
 	}
-	if v == "alg-RS256" {
+	if v == "alg-RS256" || v == "signed-RS256" || v == "signed-RS512" {
 		o.Key = 5
+	}
+	if v == "signed-EdDSA" {
+		f.ovKey = c06EdKey() // really signed with an Ed25519 key; key source by o.Kid (a root embeds it)
+	}
+	if v == "signed-HS256-oct" {
+		forceJWK = true
 	}
 	if v == "lc-first-prev" && o.NP < 2 {
 		o.NP = 2
 	}
 	b := f.base(o, idx, 0, forceKid, forceJWK)
+	f.ovKey = nil
 	hd := b.hdr
 	k := o.N
 	if k < 1 {
@@ -578,6 +586,21 @@ func (f *c06Fix) buildCrafted(o c06Offer, idx int, pool []vdTx) c06Sub {
 		s.data = c06Compact(hj(), b.phashHex(), c06HighS(b.key, validSig()))
 	case "sig-der":
 		s.data = c06Compact(hj(), b.phashHex(), c06DER(validSig()))
+	case "signed-EdDSA":
+		// complete and genuinely signed, only the algorithm (and key type) is outside the specification's list
+		s.label += ":" + map[bool]string{true: "kid", false: "jwk"}[b.kid != ""]
+	case "signed-RS256", "signed-RS512":
+		a := strings.TrimPrefix(v, "signed-")
+		hd["alg"] = a
+		s.data = c06Seal(hd, a, b.key, b.phashHex())
+		s.label += ":" + map[bool]string{true: "kid", false: "jwk"}[b.kid != ""]
+	case "signed-HS256-oct":
+		secret := c06Garbage(fmt.Sprint("oct", idx), 32)
+		hd["alg"] = "HS256"
+		hd["jwk"] = map[string]any{"kty": "oct", "k": c06B64(secret)}
+		raw := hj()
+		s.data = c06Compact(raw, b.phashHex(), c06HMAC("HS256", secret, c06SigningInput(raw, b.phashHex())))
+		s.label += ":jwk"
 	case "alg-none":
 		hd["alg"] = "none"
 		s.data = c06Compact(hj(), b.phashHex(), nil)
